@@ -677,7 +677,7 @@ fn mutable_glue(with_salt: bool) {
 //@ cap: 800
 //@ rss: 13.7
 //@ time: 302
-//@ mem: 24
+//@ mem: 40
 //@ unwindset_raw: memcmp.0:66
 //@ standins: tracing lru vcoll
 //@ desc: get_mutable glue with an earlier authentic item already recorded in the lookup: a later get_mutable response -- whose key, seq and signature bytes symbolically repeat the recorded item's or differ, around any value -- is surfaced and recorded only if MutableItem::from_dht_message was asked about exactly this response (the lookup's target, the response's k, v, seq, sig, the lookup's salt) and accepted it; otherwise nothing surfaces and nothing is recorded; nothing is yielded without verification (a replayed signature around another value included)
@@ -707,7 +707,7 @@ fn c02_o4m_mutable_glue_probed() {
 //@ cap: 800
 //@ rss: 14.0
 //@ time: 306
-//@ mem: 24
+//@ mem: 40
 //@ unwindset_raw: memcmp.0:66
 //@ standins: tracing lru vcoll
 //@ desc: get_mutable glue with an earlier authentic item already recorded in the lookup: a later get_mutable response -- whose key, seq and signature bytes symbolically repeat the recorded item's or differ, around any value -- is surfaced and recorded only if MutableItem::from_dht_message was asked about exactly this response (the lookup's target, the response's k, v, seq, sig, the lookup's salt) and accepted it; otherwise nothing surfaces and nothing is recorded; nothing is yielded without verification (a replayed signature around another value included)
